@@ -283,6 +283,35 @@ def run(R):
         R.gate("C01.get.disk", get, CallSink(NRS + "::read_from_disk"), [[contains]], descr="get reads the disk only for an indexed key")
         cache = CallGuard([RS + "RecordCache::get"], ("Some",), "cache hit")
         R.gate("C01.get.some", get, AggSink("core::option::Option", "Some", dest_ty="Cow<"), [[cache]], descr="the only Some built in get itself is the cache hit", min_sinks=1)
+    # (4b) read_from_disk yields the record whenever the file reads and decodes: no other reason to answer None
+    rfd = R.body("C01.read.complete", NRS + "::read_from_disk")
+    if rfd is not None:
+        prep(rfd)
+        g = cfg_of(rfd)
+        rejects = set()
+        for gd in (CallGuard(["std::fs::read"], ("Ok",), "fs::read is Ok"),):
+            rejects |= gd.edges(rfd)[2]
+        live = g.reach((0,), cut=rejects)
+        nones = [b for b in AggSink("core::option::Option", "None").blocks(rfd) if b in live]
+        fwd = [b for b in rfd.blocks if b["term"]["k"] == "call" and b["term"]["d"] == [0] and not b["cleanup"] and b["id"] in live]
+        okr = not nones and len(fwd) == 1 and callee_matches(fwd[0]["term"], [NRS + "::get_record_from_bytes"])
+        if not okr:
+            R.viol("C01.read.complete", "readable-file-unread", "read_from_disk can answer None (or something other than get_record_from_bytes' verdict) for a file that was read successfully", rfd, rfd.lines[0])
+        R.inst("C01.read.complete", "K4 gate (must-reach)", "a file that reads Ok is answered with get_record_from_bytes(bytes, key, ..) and nothing else", len(fwd), okr)
+    # (4c) the file behind a key: replaced whole on every write, named by the injective hex encoding of the key (rules shared with C02)
+    from props.C02 import file_rules
+    file_rules(R, "C01.file")
+    # (4d) completion notices are delivered, not dropped: send_local_swarm_cmd awaits capacity (Sender::send), never try_send
+    SLC = "ant_networking::send_local_swarm_cmd"
+    slc = R.body("C01.notify.delivery", SLC)
+    if slc is not None:
+        calls = [c["ncallee"] or "" for b in F.item(SLC) for c in b.calls]
+        sends = [c for c in calls if c.endswith("mpsc::bounded::Sender<T>::send") or c.endswith("mpsc::bounded::Sender::send") or c.endswith("Sender::send")]
+        lossy = [c for c in calls if any(c.endswith(x) for x in ("::try_send", "::try_reserve", "::send_timeout", "::blocking_send", "::try_reserve_owned"))]
+        okd = bool(sends) and not lossy
+        if not okd:
+            R.viol("C01.notify.delivery", "notice-droppable", "send_local_swarm_cmd can drop a command when the channel is full (%s): a completed write is then never indexed, a failed one never removed" % (lossy[:1] or "no awaited send"), slc, slc.lines[0])
+        R.inst("C01.notify.delivery", "K1 must-call", "local swarm commands are sent with an awaited Sender::send (never try_send)", len(sends) + len(lossy), okd)
     # (5) remove completeness
     rm = R.body("C01.remove", REMOVE)
     if rm is not None:
